@@ -7,6 +7,7 @@ mod explore;
 mod gen_model;
 mod gen_exp;
 mod gen_lp;
+mod gen_std;
 mod props;
 mod rng;
 mod sx;
